@@ -142,6 +142,21 @@ where
                     },
                     Err(e) => Some(format!("mutant does not parse: {e}")),
                 };
+                // A different proof-of-work nonce that passes the grinding check and leads to exactly the same
+                // query positions is an alternative honest proof of the same statement (the prover may return any
+                // valid nonce, cf. C06), not a tampered one: accepted, and counted separately.
+                let same = match same {
+                    Some(diff) if diff == "[\"pow_nonce\"]" => {
+                        let a = crate::replay::replay::<X, E>(&proof, &spec, &case.options).map(|t| t.positions);
+                        let b = crate::replay::replay::<X, E>(&decoded, &spec, &case.options).map(|t| t.positions);
+                        if a.is_ok() && a == b {
+                            rec.class("outcome:accepted_alternative_nonce_same_positions");
+                            continue;
+                        }
+                        Some(diff)
+                    },
+                    other => other,
+                };
                 match same {
                     None => rec.class("outcome:accepted_equal"),
                     Some(diff) => {
